@@ -433,8 +433,11 @@ class ExtraCoords(ExtraCoordsABC):
 
         # If we get here this object is empty, so just return an empty extra coords
         # This is done to simplify the slicing in NDCube.
-        # A new object, so that the one attached to this cube stays attached to it.
-        return type(self)()
+        # A new object, so that the one attached to this cube stays attached to it;
+        # coordinates dropped by earlier slices stay dropped.
+        new_extra_coords = type(self)()
+        new_extra_coords._dropped_tables = list(self._dropped_tables)
+        return new_extra_coords
 
     @property
     def dropped_world_dimensions(self):
